@@ -407,6 +407,33 @@ def atomsModel [Div K] [One K] [IntCast K] (fac : String → K) (pu : List (Stri
 def dictSet {α : Type} (d : List (String × α)) (k : String) (v : α) : List (String × α) :=
   if d.any (fun e => e.1 == k) then d.map (fun e => if e.1 == k then (k, v) else e) else d ++ [(k, v)]
 
+/-- the property names of an `Atoms` object in its own order (`self.prop()`). -/
+def AtomsM.names (a : AtomsM K) : List String := a.props.map Prod.fst
+
+/-- The argument handling at the top of `Atoms.model(prop_name, unit, prop_unit)` (shared by `System.model` and
+    `dump('system_model')`, which hand their arguments through): the `prop_unit` dictionary the rest of the method
+    works with.  `own` = the object's property names in its own order.  `none` = the documented `ValueError`
+    (`prop_unit` together with `prop_name` / `unit`; lists of different lengths).  Without `prop_unit` the
+    dictionary is filled from `zip(prop_name, unit)` (a repeated name keeps its first position and its last unit),
+    `prop_name` defaults to the object's own names, `unit` to `None` for every name. -/
+def resolveCall (own : List String) (propName : Option (List String)) (unit : Option (List (Option String)))
+    (propUnit : Option (List (String × Option String))) : Option (List (String × Option String)) :=
+  match propUnit with
+  | some pu =>
+    match propName, unit with
+    | none, none => some pu
+    | _, _ => none
+  | none =>
+    let names := propName.getD own
+    let units := unit.getD (names.map (fun _ => none))
+    if units.length = names.length then some ((names.zip units).foldl (fun d e => dictSet d e.1 e.2) []) else none
+
+/-- `Atoms.model(prop_name=…, unit=…, prop_unit=…)` in whichever form the arguments are given. -/
+def atomsModelCall [Div K] [One K] [IntCast K] (fac : String → K) (propName : Option (List String))
+    (unit : Option (List (Option String))) (propUnit : Option (List (String × Option String))) (a : AtomsM K) :
+    Option (DM K) :=
+  (resolveCall a.names propName unit propUnit).bind (fun pu => atomsModel fac pu a)
+
 /-- `PropertyDict.__setitem__` broadcast rule for a new key. -/
 def bcast (natoms : Nat) (a : Arr K) : Option (Arr K) :=
   match a.shape with
@@ -534,6 +561,14 @@ def systemModel [Add K] [Sub K] [Mul K] [Div K] [One K] [IntCast K]
       ++ appendAll "atom-type-mass" masses
       ++ [("atoms", .node (("natoms", .leaf (.int s.atoms.natoms)) :: appendAll "property" ps))]))])
   | _, _ => none
+
+/-- `System.model(box_unit, prop_name=…, unit=…, prop_unit=…)` in whichever form the arguments are given (they are
+    handed to `Atoms.model` as they are). -/
+def systemModelCall [Add K] [Sub K] [Mul K] [Div K] [One K] [IntCast K]
+    (fac : String → K) (boxUnit : Option String) (propName : Option (List String))
+    (unit : Option (List (Option String))) (propUnit : Option (List (String × Option String))) (s : SystemM K) :
+    Option (DM K) :=
+  (resolveCall s.atoms.names propName unit propUnit).bind (fun pu => systemModel fac boxUnit pu s)
 
 /-- pad with `None` up to length `n`. -/
 def fillNone {α : Type} (l : List (Option α)) (n : Nat) : List (Option α) :=
